@@ -309,6 +309,29 @@ pub fn install_panic_hook() {
     }));
 }
 
+/// Panic hook for in-process fuzzing: records the message for `catch`, prints nothing for caught
+/// panics (libFuzzer would otherwise be flooded), keeps the default abort behaviour otherwise.
+pub fn install_panic_hook_quiet() {
+    let default = std::panic::take_hook();
+    std::panic::set_hook(Box::new(move |info| {
+        let loc = info.location().map(|l| format!("{}:{}", l.file(), l.line())).unwrap_or_else(|| "?".into());
+        let msg = if let Some(s) = info.payload().downcast_ref::<&str>() {
+            s.to_string()
+        } else if let Some(s) = info.payload().downcast_ref::<String>() {
+            s.clone()
+        } else {
+            "<non-string panic payload>".to_string()
+        };
+        let full = format!("{} @ {}", msg, loc);
+        let nounwind = msg.contains("unsafe precondition") || msg.contains("cannot unwind");
+        LAST_PANIC.with(|p| *p.borrow_mut() = Some(full));
+        if nounwind {
+            eprintln!("EPVERIF-PANIC step={} panicked at: {} @ {}", current_step(), msg, loc);
+            default(info);
+        }
+    }));
+}
+
 /// Run `f`, converting an unwinding panic into `Err("message @ file:line")`.
 pub fn catch<T>(f: impl FnOnce() -> T) -> Result<T, String> {
     match std::panic::catch_unwind(std::panic::AssertUnwindSafe(f)) {
